@@ -855,6 +855,10 @@ struct SetupRecvRequest{
                   MPI_Comm comm) const
   {
     buffer.reset();
+    // Indices without data items contribute nothing to a message. If only
+    // such indices are left the sender sends nothing, so a receive posted
+    // now would never complete.
+    tracker.skipZeroIndices();
     if(tracker.indicesLeft())
       MPI_Irecv(buffer, buffer.size(), MPITraits<typename DataHandle::DataType>::getType(),
                 tracker.rank(), 933399, comm, &request);
